@@ -327,15 +327,23 @@ Proof.
   split; [apply Ts_set_scopes, H3|cbn [w_copies set_scopes]; lia].
 Qed.
 
+Lemma Step_pause w d : Ts w -> Step w (pause w d).
+Proof. intros H. unfold pause. destruct (0 <? d); [apply Step_wait, H|split; [exact H|lia]]. Qed.
+
 Lemma fallback_layer_pres pos cfg inner : pres inner -> pres (fallback_layer pos cfg inner).
 Proof.
   intros Hi c w Hc H. unfold fallback_layer. pose proof (Hi c w Hc H) as S1. destruct (inner c w) as [r w1]. cbn [snd] in S1.
   assert (Hc1 : okc c w1) by (apply (okc_le c w); [exact (proj2 S1)|exact Hc]).
   destruct (is_failure (fb_fpol cfg) (pr_out r)).
   - pose proof (Step_ev w1 c KPolFailure pos (with_failure r) Hc1 (proj1 S1)) as S2.
-    set (w2 := ev_with_result w1 c KPolFailure pos _) in *.
-    cbn [pr_succ with_failure]. destruct (is_canceled w2 c); [eapply Step_trans; eassumption|].
-    cbn [snd]. eapply Step_trans; [exact S1|]. eapply Step_trans; [exact S2|]. apply Step_same; [apply Ts_emit, (proj1 S2)|reflexivity].
+    set (w2a := ev_with_result w1 c KPolFailure pos _) in *.
+    pose proof (Step_pause w2a (fb_lsn_dur cfg) (proj1 S2)) as S2b. set (w2 := pause w2a _) in *.
+    assert (S2' : Step w w2) by (eapply Step_trans; [exact S1|eapply Step_trans; [exact S2|exact S2b]]).
+    cbn [pr_succ with_failure]. destruct (is_canceled w2 c); [exact S2'|].
+    pose proof (Step_pause w2 (fb_dur cfg) (proj1 S2')) as S3. set (w3 := pause w2 _) in *.
+    assert (S3' : Step w w3) by (eapply Step_trans; [exact S2'|exact S3]).
+    destruct (is_canceled w3 c); [exact S3'|].
+    cbn [snd]. eapply Step_trans; [exact S3'|]. apply Step_same; [apply Ts_emit, (proj1 S3')|reflexivity].
   - cbn [pr_succ with_done]. cbn [snd]. eapply Step_trans; [exact S1|]. apply Step_ev; [exact Hc1|exact (proj1 S1)].
 Qed.
 
@@ -359,7 +367,9 @@ Proof. intros H. unfold put_rstate. apply Step_same; [apply Ts_set_retry, H|refl
 Lemma retry_on_failure_Step cfg pos c r w : okc c w -> Ts w -> Step w (snd (retry_on_failure cfg pos c r w)).
 Proof.
   intros Hc H. unfold retry_on_failure.
-  pose proof (Step_ev w c KPolFailure pos r Hc H) as S0. set (w0 := ev_with_result w c KPolFailure pos r) in *.
+  pose proof (Step_ev w c KPolFailure pos r Hc H) as S0a. set (w0a := ev_with_result w c KPolFailure pos r) in *.
+  pose proof (Step_pause w0a (r_lsn_dur cfg) (proj1 S0a)) as S0b. set (w0 := pause w0a (r_lsn_dur cfg)) in *.
+  assert (S0 : Step w w0) by (eapply Step_trans; [exact S0a|exact S0b]).
   pose proof (Step_put_rstate w0 pos {| rs_failed := rs_failed (get_rstate w0 pos) + 1;
      rs_exceeded := negb (r_max_retries cfg =? -1) && (r_max_retries cfg <? rs_failed (get_rstate w0 pos) + 1)
                     || negb (r_max_duration cfg =? 0) && (r_max_duration cfg <? w_now w0 - w_start w0) |} (proj1 S0)) as S1.
